@@ -111,12 +111,15 @@ fn guarded(which: &str, label: String, f: impl FnOnce() -> Result<(), String> + 
     let h = std::thread::spawn(move || { let r = std::panic::catch_unwind(std::panic::AssertUnwindSafe(f)); let _ = tx.send(r.is_ok()); r });
     // a panic / hang is a C04 matter; a hang of a for_each_concurrent* call with a limit >= 1 is also what C10's last sentence excludes
     let c10_hang = which == "C10" && (label.contains("limit=Some(1)") || label.contains("limit=Some(2)"));
+    // ... and a run that shares the graph with other runs and never returns breaks C20's "termination ... as if it were the only run"
+    let c20_hang = which == "C20" && (label.contains("threads") || label.contains("joined"));
     let c04 = which == "C04" || which == "all";
     // a run that is stuck is parked (no CPU); a run that is merely slow on a loaded machine keeps the process busy
     match recv_unless_idle(&rx, 20, 900) {
         Some(true) => Ok(h.join().unwrap().ok().unwrap()),
         // a panic / hang is a C04 matter: it is only reported when C04 is being searched
         Some(false) => if c04 { Err(format!("C04: panic during {label}")) } else { Ok(Ok(())) },
+        None if c20_hang => Err(format!("C20: {label}: did not return (no progress for 20 s, every thread is parked)")),
         None if c10_hang => Err(format!("C10: {label} did not run to completion (no progress for 20 s, the thread is parked) although the limit is >= 1")),
         None => if c04 { Err(format!("C04: {label} did not return (no progress for 20 s: future left pending with no wake-up)")) } else {
             // hangs are a C04 matter; a search for another property gives up after a few of them instead of waiting 20 s per call
@@ -153,6 +156,63 @@ fn run_big_case(which: &'static str, c: Case) -> Result<(), String> {
         }
         Ok(())
     })??;
+    Ok(())
+}
+
+/// C07 on a runtime with a cooperative budget: k functions that succeed, then a failing one, a succeeding one, a second failing one
+/// and a function that depends on the second failure. Every function but the dependent parks on a gate; when all are parked they
+/// are released in id order, so that all of them complete inside ONE poll of the call. k and `extra` (budgeted operations done by
+/// function 0) sweep the point at which the budget (128 operations per task poll on tokio) runs out across the failure path.
+#[derive(Default)]
+struct Gate { open: bool, wakers: Vec<(usize, std::task::Waker)>, started: Vec<usize> }
+
+fn budget_sweep(which: &'static str) -> Result<(), String> {
+    if !(which == "C07" || which == "all") { return Ok(()); }
+    for mutable in [false, true] {
+        for k in 0..=140usize {
+            for extra in 0..3usize {
+                let n = k + 4;
+                let (f1, f2, dep) = (k, k + 2, k + 3);
+                let label = format!("try_for_each_concurrent{}: {k} succeeding functions, failing {f1}, succeeding {}, failing {f2}, and {dep} depending on {f2}, all released from a gate in id order; function 0 does {extra} extra budgeted operations", if mutable { "_mut" } else { "" }, k + 1);
+                guarded(which, label.clone(), move || {
+                    let c = Case { n, accs: (0..n).map(|i| Acc { id: i, reads: vec![], writes: vec![] }).collect(), edges: vec![(f2, dep)], desc: label.clone() };
+                    let (mut g, _ids) = build(&c);
+                    let gate = Rc::new(RefCell::new(Gate::default()));
+                    let body = { let gate = gate.clone(); move |id: usize| { let gate = gate.clone(); async move {
+                        gate.borrow_mut().started.push(id);
+                        std::future::poll_fn(|cx| { let mut s = gate.borrow_mut(); if s.open { Poll::Ready(()) } else { s.wakers.retain(|(i, _)| *i != id); s.wakers.push((id, cx.waker().clone())); Poll::Pending } }).await;
+                        if id == 0 { for _ in 0..extra { tokio::task::coop::consume_budget().await; } }
+                        if id == f1 || id == f2 { Err(id) } else { Ok(()) }
+                    } } };
+                    let opener = { let gate = gate.clone(); async move {
+                        std::future::poll_fn(|cx| {
+                            let mut s = gate.borrow_mut();
+                            if s.wakers.len() < dep { cx.waker().wake_by_ref(); return Poll::Pending; }
+                            s.open = true;
+                            let mut ws = std::mem::take(&mut s.wakers);
+                            drop(s);
+                            ws.sort_by_key(|(i, _)| *i);
+                            ws.into_iter().for_each(|(_, w)| w.wake());
+                            Poll::Ready(())
+                        }).await
+                    } };
+                    let res = if mutable {
+                        let b2 = body.clone();
+                        block_on(async { futures::join!(g.try_for_each_concurrent_mut(None, move |f: &mut Acc| b2(f.id)), opener).0 })
+                    } else {
+                        let b2 = body.clone();
+                        block_on(async { futures::join!(g.try_for_each_concurrent(None, move |f: &Acc| b2(f.id)), opener).0 })
+                    };
+                    let started = gate.borrow().started.clone();
+                    if started.contains(&dep) { return Err(format!("C07: function {dep} was started although its predecessor {f2} failed ({label})")); }
+                    let mut errs = match res { Ok(_) => vec![], Err((_, e)) => e };
+                    errs.sort();
+                    if errs != vec![f1, f2] { return Err(format!("C07: errors {errs:?} but functions {f1} and {f2} failed ({label})")); }
+                    Ok(())
+                })??;
+            }
+        }
+    }
     Ok(())
 }
 
@@ -421,6 +481,34 @@ fn run_case(which: &'static str, c: Case, seed: u64) -> Result<(), String> {
             Ok(())
         })??;
     }
+    // ---- C20: runs on ONE graph from several threads at the same moment, forward and reverse mixed (shared `&FnGraph`); every run
+    // is judged by the single-run oracles as if it were alone
+    if (which == "C20" || which == "all") && c.n > 0 && c.n <= 8 && !stream_only {
+        let cc = Case { n: c.n, accs: c.accs.clone(), edges: c.edges.clone(), desc: c.desc.clone() };
+        let label = format!("4 threads x 150 for_each_concurrent_with runs (2 forward, 2 reverse) on one shared graph: {}", c.desc);
+        guarded(which, label, move || {
+            let (g, ids) = build(&cc);
+            let g = &g; let ids = &ids; let cc = &cc;
+            let results: Vec<Result<(), String>> = std::thread::scope(|sc| {
+                let hs: Vec<_> = (0..4usize).map(|t| sc.spawn(move || -> Result<(), String> {
+                    let reverse = t % 2 == 1;
+                    for it in 0..150usize {
+                        let trace = Rc::new(RefCell::new(Vec::<Ev>::new()));
+                        let opts = if reverse { StreamOpts::new().rev() } else { StreamOpts::new() };
+                        let t2 = trace.clone();
+                        let outcome = block_on(g.for_each_concurrent_with(None, opts, move |f: &Acc| { let (tr, id) = (t2.clone(), f.id); async move { tr.borrow_mut().push(Ev::Start(id)); YieldN((id % 2) as u32).await; tr.borrow_mut().push(Ev::End(id)); } }));
+                        let tr = trace.borrow().clone();
+                        check_trace("all", cc, g, ids, &tr, reverse, true, &[], "for_each_concurrent_with").map_err(|e| format!("C20: thread {t} run {it} (reverse={reverse}), one of several simultaneous runs on one graph, violates {e}"))?;
+                        if outcome.state != StreamOutcomeState::Finished || outcome.fn_ids_processed.len() != cc.n { return Err(format!("C20: thread {t} run {it} (reverse={reverse}): outcome {:?} with {} of {} functions processed ({})", outcome.state, outcome.fn_ids_processed.len(), cc.n, cc.desc)); }
+                    }
+                    Ok(())
+                })).collect();
+                hs.into_iter().map(|h| h.join().unwrap_or_else(|_| Err(format!("C20: a thread running on the shared graph panicked ({})", cc.desc)))).collect()
+            });
+            for r in results { r?; }
+            Ok(())
+        })??;
+    }
     // ---- the _mut try variants incl. the control wrapper, with a failing set (C07, C09)
     if c.n > 0 && !stream_only {
         for variant in 0..2 {
@@ -503,6 +591,8 @@ fn main() {
         cases.push(Case { n, accs, edges, desc });
     }
     let tokio_mode = std::env::var("VERIF_EXECUTOR").as_deref() == Ok("tokio");
+    READY_ONLY.store(false, std::sync::atomic::Ordering::Relaxed);
+    if let Err(e) = budget_sweep(which) { println!("VIOLATION {e}"); std::process::exit(1); }
     for (k, c) in cases.into_iter().enumerate() {
         READY_ONLY.store(tokio_mode && (c.n > 50 || k % 2 == 0), std::sync::atomic::Ordering::Relaxed);
         if let Err(e) = run_case(which, c, seed.wrapping_add(k as u64)) {
